@@ -754,8 +754,50 @@ func (c *SpecCtx) call(x *SCall) Val {
 		return Val{T: s.ghostRead(g, key), Ty: g.Ty}
 	}
 	switch x.Fn {
+	case "key":
+		// identity key of an object as used by the ghost ledgers
+		v := arg(0)
+		if v.Addr != nil {
+			return ival(e.objKey(s, v))
+		}
+		return ival(refOf(s, v))
+	case "mutexkey":
+		return ival(e.mutexKeyOf(s, arg(0)))
+	case "was":
+		// was(ghost, x): the value the ghost ledger had in the old state at the key of x, x evaluated in the current state
+		id, ok := x.Args[0].(*SIdent)
+		if !ok || e.ghosts[id.Name] == nil {
+			c.fail("was: unknown ghost")
+		}
+		g := e.ghosts[id.Name]
+		v := arg(1)
+		var key string
+		if isIntTy(v.Ty) {
+			key = v.T
+		} else if v.Addr != nil {
+			key = e.objKey(s, v)
+		} else {
+			key = refOf(s, v)
+		}
+		h := c.oldHeapTerm("gh:"+g.Name, "(Array Int "+e.sortOf(g.Ty)+")")
+		return Val{T: "(select " + h + " " + key + ")", Ty: g.Ty}
+	case "gk":
+		// gk(ghost, k): raw read of ghost ledger at key k
+		id, ok := x.Args[0].(*SIdent)
+		if !ok || e.ghosts[id.Name] == nil {
+			c.fail("gk: unknown ghost")
+		}
+		g := e.ghosts[id.Name]
+		return Val{T: s.ghostRead(g, c.evalInt(x.Args[1])), Ty: g.Ty}
 	case "lockcount":
 		return ival(s.lockCountTerm())
+	case "visited":
+		k := arg(0)
+		kt := s.term(k)
+		if _, isI := k.Ty.Underlying().(*types.Interface); !isI {
+			kt = e.mkIface(k.Ty, kt)
+		}
+		return bval("(select " + s.heapTerm("gh:$visited", "(Array Iface Bool)") + " " + kt + ")")
 	case "smhas", "smval":
 		m := arg(0)
 		k := arg(1)
